@@ -454,6 +454,46 @@ def _count_labels(c, counts, aliased, pre):
         c.label('cell:extra_order')
 
 
+ARRAY_SHAPES = (('len1', [0.4]), ('len5', [0.0, 0.05, 0.3, 0.6, 0.85]), ('0d', [0.25]))
+
+
+def _array_route_py(c, fn, N, levels_of, where):
+    """The documented argument type is FloatArray: run the interpreted twin (the source numba compiles; no
+    compilation needed, so ALL tables/helpers get this in every tier) with ndarray eccentricities of length
+    1, length 5 and 0-d, and require (a) every element == exact oracle (compiled-value tolerance), (b) every
+    element == the float route of the same function within SAME_RTOL x scale, (c) the caller's array is
+    bit-for-bit unchanged.  `levels_of(out, n)` -> {l: {(p,q): [values]}}."""
+    import numpy as np
+    twin = _dejit(fn)
+    c.label('array_py')
+    for name, es in ARRAY_SHAPES:
+        arr = np.asarray(es[0] if name == '0d' else es, dtype=np.float64)
+        keep = arr.tobytes()
+        with np.errstate(all='ignore'):
+            with repo_call('%s.py_func(ndarray %s)' % (where, name)):
+                per = levels_of(twin(arr), len(es))
+            with repo_call('%s.py_func(float)' % where):
+                perf = [levels_of(twin(float(x)), 1) for x in es]
+        c.check(arr.tobytes() == keep, {'clause': 'input_array_modified', 'where': where + '_array_py'},
+                'N=%d %s: the caller\'s %s eccentricity array was modified: now %r' % (N, where, name, arr))
+        for l in sorted(per):
+            if not published(l, N):
+                continue
+            ref, _ = _compare_level(c, l, N, per[l], es, where + '_array_py')
+            bad = []
+            for key in sorted(set(per[l]) & set(ref)):
+                for i, x in enumerate(es):
+                    if i >= len(per[l][key]) or l not in perf[i] or key not in perf[i][l]:
+                        continue
+                    a = per[l][key][i]
+                    b = perf[i][l][key][0]
+                    if not (a == b or abs(a - b) <= SAME_RTOL * ref[key][i][2] + UNDERFLOW_FLOOR):
+                        bad.append('(p=%d,q=%d) e=%r: array route %.17g float route %.17g' % (key[0], key[1], x, a, b))
+            if bad:
+                c.fail({'clause': 'array_route_differs_from_float_route', 'where': where + '_array_py', 'l': l},
+                       'l=%d N=%d %s (%s): %d element(s): %s' % (l, N, where, name, len(bad), '; '.join(bad[:6])))
+
+
 def _table_numeric_fallback(c, fn, l, N, where):
     """Exact evaluation of this table function is impossible: compare the function as users call it (compiled
     dispatcher, or the plain function if it is not jitted) at 8 eccentricities in (0, 0.6], array and scalar
@@ -506,6 +546,7 @@ def _eval_table(case):
         _check_table(c, l, N, res, where, counts if first else _new_counts())
         if first:
             aliased = al
+        _array_route_py(c, f, N, lambda out, n, _l=l: {_l: _to_plain(out, n)}, where)
     _count_labels(c, counts, aliased, 'nt')
     if ncell_numeric:
         c.label('nt_numeric_cells=%d' % ncell_numeric)
@@ -541,6 +582,7 @@ def _eval_lookup_py(case):
         res = {p: {q: (v if isinstance(v, Series) else Series.constant(v, SERIES_ORDER)) for q, v in row.items()}
                for p, row in raw[l].items()}
         _check_table(c, l, N, res, 'lookup_py', counts)
+    _array_route_py(c, helper, N, lambda out, n: {int(k): _to_plain(out[k], n) for k in out}, 'lookup_py')
     _count_labels(c, counts, 0, 'nl')
     c.nontrivial = counts['coef'] > 0
     return c.result()
@@ -762,6 +804,9 @@ def _arg(case):
     if case['form'] == 'scalar':
         evals = evals[:1]
         return evals, evals[0]
+    if case['form'] == 'array0d':
+        evals = evals[:1]
+        return evals, np.asarray(evals[0], dtype=np.float64)
     return evals, np.asarray(evals, dtype=np.float64)
 
 
@@ -770,7 +815,10 @@ def _eval_compiled(case):
     N, l = int(case['N']), int(case['l'])
     path = case['path']
     evals, arg = _arg(case)
-    c = Collector(labels=['compiled:' + path, 'l:%d' % l, 'N:%d' % N, case['form']],
+    interp = case['kind'] == 'interp'       # interpreted twin (all l in every tier) instead of the compiled code
+    run = (lambda f, a: _dejit(f)(a)) if interp else _call_compiled
+    keep = arg.tobytes() if hasattr(arg, 'tobytes') else None
+    c = Collector(labels=[('interp:' if interp else 'compiled:') + path, 'l:%d' % l, 'N:%d' % N, case['form']],
                   nontrivial=any(x > 0.0 for x in evals))
     emax = max(evals)
     c.label('e:zero' if emax == 0.0 else 'e:small' if emax < 0.1 else 'e:large' if emax > 0.7 else 'e:mid')
@@ -779,13 +827,13 @@ def _eval_compiled(case):
     worst = 0.0
     if path == 'dispatch':
         with repo_call('compiled eccentricity_truncations[%d][%d]' % (N, l)):
-            out = _call_compiled(m['ef'].eccentricity_truncations[N][l], arg)
+            out = run(m['ef'].eccentricity_truncations[N][l], arg)
             got = _to_plain(out, len(evals))
-        _, worst = _compare_level(c, l, N, got, evals, 'dispatch')
+        _, worst = _compare_level(c, l, N, got, evals, 'interp_dispatch' if interp else 'dispatch')
     else:
         lmax = l
         with repo_call('compiled eccentricity_functions_lookup[%d][%d]' % (N, lmax)):
-            out = _call_compiled(m['mh'].eccentricity_functions_lookup[N][lmax], arg)
+            out = run(m['mh'].eccentricity_functions_lookup[N][lmax], arg)
             levels = sorted(int(k) for k in out)
             per = {int(k): _to_plain(out[k], len(evals)) for k in out}
         c.check(levels == list(range(2, lmax + 1)), {'clause': 'lookup_levels', 'where': 'lookup'},
@@ -793,10 +841,10 @@ def _eval_compiled(case):
         for ll in levels:
             if not published(ll, N):
                 continue
-            ref, w = _compare_level(c, ll, N, per[ll], evals, 'lookup')
+            ref, w = _compare_level(c, ll, N, per[ll], evals, 'interp_lookup' if interp else 'lookup')
             worst = max(worst, w)
             with repo_call('compiled eccentricity_truncations[%d][%d]' % (N, ll)):
-                direct = _to_plain(_call_compiled(m['ef'].eccentricity_truncations[N][ll], arg), len(evals))
+                direct = _to_plain(run(m['ef'].eccentricity_truncations[N][ll], arg), len(evals))
             bad = []
             if set(direct) != set(per[ll]):
                 bad.append('key sets differ')
@@ -807,6 +855,9 @@ def _eval_compiled(case):
             if bad:
                 c.fail({'clause': 'lookup_differs_from_dispatcher', 'l': ll},
                        'N=%d lmax=%d l=%d: %s' % (N, lmax, ll, '; '.join(bad[:6])))
+    if keep is not None:
+        c.check(arg.tobytes() == keep, {'clause': 'input_array_modified', 'where': ('interp_' if interp else '') + path},
+                'N=%d l=%d %s: the caller\'s eccentricity array was modified: %r -> %r' % (N, l, path, evals, arg))
     if os.environ.get('C08_CALIBRATE'):
         c.label('worst<=1e%d' % (math.ceil(math.log10(worst)) if worst > 0 else -99))
     return c.result()
@@ -831,7 +882,8 @@ def in_domain(case):
             return published(case['l'], case['N'])
         if case['kind'] == 'lookup_py':
             return case['N'] in NS and case['lmax'] in LS and (case['N'] != 22 or case['lmax'] == 2)
-        if case['kind'] != 'compiled' or case['path'] not in ('dispatch', 'lookup') or case['form'] not in ('scalar', 'array'):
+        if case['kind'] not in ('compiled', 'interp') or case['path'] not in ('dispatch', 'lookup') \
+                or case['form'] not in ('scalar', 'array', 'array0d'):
             return False
         if not published(case['l'], case['N']):
             return False
@@ -843,7 +895,8 @@ def in_domain(case):
 
 # two compiled-path witnesses (also make the evidence samples show what a generated case looks like)
 WITNESSES = [{'kind': 'compiled', 'path': 'dispatch', 'N': 4, 'l': 2, 'form': 'scalar', 'e': [0.3]},
-             {'kind': 'compiled', 'path': 'lookup', 'N': 4, 'l': 3, 'form': 'array', 'e': [0.0, 0.05, 0.6]}]
+             {'kind': 'compiled', 'path': 'lookup', 'N': 4, 'l': 3, 'form': 'array', 'e': [0.0, 0.05, 0.6]},
+             {'kind': 'interp', 'path': 'lookup', 'N': 20, 'l': 7, 'form': 'array', 'e': [0.0, 0.2, 0.85]}]
 
 
 def fixed_cases(tier):
@@ -870,14 +923,26 @@ def _shard_index():
     return 0, 1
 
 
+def _compiled_ls(tier, N):
+    """Degrees whose COMPILED code the tier exercises at truncation N.  Quick: l <= 3 at every N plus all
+    l <= 7 at N <= 4 (cheap to compile); thorough: everything.  (The interpreted twin covers all l, N, and
+    all three argument forms in every tier.)"""
+    if N == 22:
+        return [2]
+    lm = 7 if (tier == 'thorough' or N <= 4) else COMPILED_LMAX[tier]
+    return list(range(2, lm + 1))
+
+
+FORM_COST = {'scalar': 1.0, 'array0d': 1.0, 'array': 2.3}
+
+
 def _units(tier):
-    lm = COMPILED_LMAX[tier]
-    units = [(N, form) for N in NS for form in ('scalar', 'array')]
+    units = [(N, form) for N in NS for form in ('scalar', 'array', 'array0d')
+             if form != 'array0d' or tier == 'thorough' or N <= 4]
 
     def cost(u):
         N, form = u
-        nl = 1 if N == 22 else lm - 1
-        return (N + 2) * nl * (2.3 if form == 'array' else 1.0)
+        return (N + 2) * sum(l + 1 for l in _compiled_ls(tier, N)) / 7.0 * FORM_COST[form]
     units.sort(key=lambda u: (-cost(u), u))
     return units, cost
 
@@ -897,23 +962,32 @@ def _my_units(tier):
 
 
 def strategy(tier):
-    lm = COMPILED_LMAX[tier]
     units = _my_units(tier)
     e_one = st.one_of(st.just(0.0), st.floats(0.0, E_MAX), st.floats(0.0, E_MAX), st.floats(0.0, 0.1),
                       st.floats(0.7, E_MAX), st.floats(1e-12, 1e-3))
 
+    def e_list(form):
+        return st.lists(e_one, min_size=1, max_size=5 if form == 'array' else 1)
+
     def for_unit(u):
         N, form = u
-        ls = [2] if N == 22 else list(range(2, lm + 1))
-        es = st.lists(e_one, min_size=1, max_size=1) if form == 'scalar' else st.lists(e_one, min_size=1, max_size=5)
         return st.fixed_dictionaries({'kind': st.just('compiled'), 'path': st.sampled_from(['dispatch', 'dispatch', 'lookup']),
-                                      'N': st.just(N), 'l': st.sampled_from(ls), 'form': st.just(form), 'e': es})
-    return st.sampled_from(units).flatmap(for_unit)
+                                      'N': st.just(N), 'l': st.sampled_from(_compiled_ls(tier, N)), 'form': st.just(form),
+                                      'e': e_list(form)})
+
+    def interp(nf):
+        N, form = nf
+        return st.fixed_dictionaries({'kind': st.just('interp'), 'path': st.sampled_from(['dispatch', 'lookup']),
+                                      'N': st.just(N), 'l': st.sampled_from([2] if N == 22 else list(LS)),
+                                      'form': st.just(form), 'e': e_list(form)})
+    compiled = st.sampled_from(units).flatmap(for_unit)
+    interpreted = st.tuples(st.sampled_from(NS), st.sampled_from(['scalar', 'array', 'array', 'array0d'])).flatmap(interp)
+    return st.one_of(compiled, compiled, compiled, interpreted)
 
 
 def required_labels(tier):
-    lm = COMPILED_LMAX[tier]
-    req = ['table', 'lookup_py', 'compiled:dispatch', 'compiled:lookup', 'scalar', 'array', 'e:zero', 'e:small', 'e:mid',
+    req = ['table', 'lookup_py', 'array_py', 'compiled:dispatch', 'compiled:lookup', 'interp:dispatch', 'interp:lookup',
+           'scalar', 'array', 'array0d', 'e:zero', 'e:small', 'e:mid',
            'e:large', 'cell:closed', 'cell:poly', 'cell:absent', 'cell:aliased']
     req += ['l:%d' % l for l in LS] + ['N:%d' % N for N in NS] + ['lmax:%d' % l for l in LS]
     return req
@@ -936,7 +1010,8 @@ def extra_coverage(tier, merged):
     return {'exhaustive': bool(complete),
             'explanation': ('exhaustive refers to the enumerated part: every published table (l,N) and every lookup helper '
                             '(N,l_max) run once on an exact power-series argument, all (p,q) cells compared coefficient-wise; '
-                            'the compiled code is sampled (generated cases), l<=%d in this tier' % COMPILED_LMAX[tier]),
+                            'the ndarray route of every table/helper is run on the interpreted twin (3 shapes); the compiled code is '
+                            'sampled (generated cases): %s' % ('all l, N' if tier == 'thorough' else 'l<=3 at every N, l<=7 at N<=4')),
             'enumerated': {'tables': n_tables, 'lookup_helpers': n_lookups,
                            'table_cells_present': tot.get('nt_present', 0), 'table_cells_absent': tot.get('nt_absent', 0),
                            'table_cells_closed_form': tot.get('nt_closed', 0), 'table_cells_aliased': tot.get('nt_aliased', 0),
@@ -952,11 +1027,11 @@ def _warm_N(N, lmax):
     import numpy as np
     m = _mods()
     arr = np.asarray([0.1, 0.3])
-    for l in ([2] if N == 22 else range(2, lmax + 1)):
-        m['ef'].eccentricity_truncations[N][l](0.3)
-        m['ef'].eccentricity_truncations[N][l](arr)
-        m['mh'].eccentricity_functions_lookup[N][l](0.3)
-        m['mh'].eccentricity_functions_lookup[N][l](arr)
+    for l in _compiled_ls('quick', N):
+        args = [0.3, arr] + ([np.asarray(0.3)] if N <= 4 else [])
+        for a in args:
+            m['ef'].eccentricity_truncations[N][l](a)
+            m['mh'].eccentricity_functions_lookup[N][l](a)
 
 
 def warm():
